@@ -19,7 +19,7 @@ From Coq Require String.
 From Abasic Require Import Model.Bytes Model.Num Model.Token Model.Data Model.Lexer Gen.Tables
      Model.State Model.Eval Model.Interp Model.Analyzer Proofs.Monad Proofs.Frames Proofs.StoreProofs
      Proofs.Safety Proofs.AnalyzerFrame Proofs.AnalyzerProofs Proofs.AgreeProofs Proofs.Caps Proofs.CheckSound Proofs.CheckAgree Proofs.AnalyzerFns Proofs.AnalyzerSafety Proofs.AnalyzerTermination
-     Proofs.PlainToks Proofs.ProgSound Proofs.ProgSoundElse Proofs.LineAgree.
+     Proofs.PlainToks Proofs.ProgSound Proofs.ProgSoundElse Proofs.LineAgree Proofs.LineComplete.
 Import ListNotations.
 Local Open Scope nat_scope.
 
@@ -261,6 +261,22 @@ Theorem C06_straight_line_error_fails : forall fi fa k m s sa acc msg st',
   walk_line fa k m (sa, acc) = (Ok (Some msg), st') -> ~ exists s', LineRun fi s s'.
 Proof. exact straight_line_error_fails. Qed.
 
+(* ... and over the analysis of a whole program text (Proofs/LineComplete.v): every Error message of the analysis of
+   a program without DEF tokens is a tokenization error of pass 1 (the line was never stored) or was produced by the
+   walk on a stored line ln; if that line is straight, executing it fails - from EVERY interpreter state that holds
+   the program, stands at the first token of line ln, is typed and has no function defined (a fresh state is one). *)
+Theorem C06_reported_error_means_failure : forall fuel text,
+  line_bound text < fuel ->
+  nodef_program (st_toks (p_prog (pass1_of' text))) ->
+  forall msg, In msg (an_messages (analyze fuel text)) -> is_error_msg msg = true ->
+  In msg (p_msgs (pass1_of' text))
+  \/ exists ln ts, toks_get ln (st_toks (p_prog (pass1_of' text))) = Some ts
+       /\ (straight_line ts = true ->
+           forall fi s, st_toks s = st_toks (p_prog (pass1_of' text)) -> st_keys s = st_keys (p_prog (pass1_of' text)) ->
+             immediate s = [] -> loc s = mkloc (Some ln) 0 -> caps_inv s -> functions s = [] ->
+             ~ exists s', LineRun fi s s').
+Proof. exact reported_error_means_failure. Qed.
+
 (* a failing statement of the line is a failing turn of the host loop *)
 Theorem C06_statement_failure_is_turn_failure : forall fi s s1 e l s2,
   has_next_token (set_state Running s) = (Ok true, s1) -> evaluate_statement fi 0 s1 = (Err e l, s2) ->
@@ -488,5 +504,6 @@ Print Assumptions C06_program_sound_else.
 Print Assumptions C06_program_sound_input.
 Print Assumptions C06_straight_line_complete.
 Print Assumptions C06_straight_line_error_fails.
+Print Assumptions C06_reported_error_means_failure.
 Print Assumptions C06_statement_failure_is_turn_failure.
 Print Assumptions C06_expression_tokens.
